@@ -683,7 +683,7 @@ func jWrap(alg, enc string, k *jKey, rnd func(n int) []byte, eph *jKey, in jPara
 		if err != nil {
 			return
 		}
-		out.EPK = eph.PublicJWK()
+		out.EPK = jDecorateEPK(eph.PublicJWK())
 		if alg == "ECDH-ES" {
 			cek, ek = jConcatKDF(z, enc, in.APU, in.APV, jCEKSize(enc)), []byte{}
 		} else {
@@ -733,7 +733,7 @@ func jWrapCEK(alg string, cek []byte, k *jKey, rnd func(n int) []byte, eph *jKey
 		if err != nil {
 			return
 		}
-		out.EPK = eph.PublicJWK()
+		out.EPK = jDecorateEPK(eph.PublicJWK())
 		ek, err = jAESKWWrap(jConcatKDF(z, alg, in.APU, in.APV, jKWSize(alg)), cek)
 	case strings.HasSuffix(alg, "GCMKW"):
 		out.IV = rnd(12)
@@ -754,6 +754,33 @@ func jWrapCEK(alg string, cek []byte, k *jKey, rnd func(n int) []byte, eph *jKey
 		err = errors.New("kw: algorithm cannot wrap a given CEK")
 	}
 	return
+}
+
+// jDecorateEPK adds, for some ephemeral keys, LEGAL further JWK members to the "epk" value (RFC 7518 §4.6.1.1: a
+// JWK public key; minimal only by SHOULD).  The shapes are those other stacks emit: a key id, "use":"enc", and the
+// "key_ops" / "ext" members of a WebCrypto export (public ECDH keys export with EMPTY usages; derive-only stacks with
+// ["deriveBits"]).  The recipient agrees on the key from crv/x/y; what the sender wrote about its own ephemeral
+// key's usages does not make the message non-conformant.  The choice is a function of the key, not of the PRNG.
+func jDecorateEPK(m map[string]any) map[string]any {
+	x, _ := m["x"].(string)
+	if len(x) < 2 {
+		return m
+	}
+	switch (int(x[0]) + int(x[1])) % 12 {
+	case 0:
+		m["kid"] = "eph-1"
+	case 1:
+		m["use"] = "enc"
+	case 2:
+		m["key_ops"] = []any{}
+		m["ext"] = true
+	case 3:
+		m["key_ops"] = []any{"deriveBits"}
+	case 4:
+		m["key_ops"] = []any{"deriveKey", "deriveBits"}
+		m["ext"] = true
+	}
+	return m
 }
 
 func (p jParams) addTo(h map[string]any) {
